@@ -67,7 +67,7 @@ def run(fx, R, tier):
             continue
         sa = [deep_unwrap(sx(x.get('e') or x.get('c'))) for x in walk(a['body']) if x.get('k') in ('Expr', 'If')]
         sb = [deep_unwrap(sx(x.get('e') or x.get('c'))) for x in walk(b['body']) if x.get('k') in ('Expr', 'If')]
-        R.check(sa == sb, 'Y2', 'RayCasting<%d>::next:float-vs-double' % dim, 'the float and double specialisations differ: first difference %s' % (next(((x, y) for x, y in zip(sa, sb) if x != y), (len(sa), len(sb))),),
+        R.form(sa == sb, 'Y2', 'RayCasting<%d>::next:float-vs-double' % dim, 'the float and double specialisations differ: first difference %s' % (next(((x, y) for x, y in zip(sa, sb) if x != y), (len(sa), len(sb))),),
                 'identical after erasing the scalar type', fx.rel(a['loc']), 'E-SIB')
 
 
@@ -171,8 +171,12 @@ def check_protocol(fx, R, cq, dim):
     want_n = [('return', ('+', ('.sum', ('.abs', ('-', ('.cast', 'this.rayEndIndexes_'), ('.cast', 'this.rayOriginIndexes_')))), 1))]
     want_n2 = [('return', ('+', ('.sum', ('.abs', ('-', ('.cast', 'this.rayOriginIndexes_'), ('.cast', 'this.rayEndIndexes_')))), 1))]
     got = stmts_sx(fn_n)
-    R.check(got in (want_n, want_n2), 'Y3', cname + '::computeRayNumberOfCells', 'cell count is %s, expected |end - origin|_1 + 1 on the cell indexes' % (got,), '|end-origin|_1 + 1',
-            fx.rel(fn_n['loc']), 'E-ALG')
+    R.form(got in (want_n, want_n2), 'Y3', cname + '::computeRayNumberOfCells', 'cell count is %s, expected |end - origin|_1 + 1 on the cell indexes' % (got,), '|end-origin|_1 + 1',
+            fx.rel(fn_n['loc']), 'E-ALG',
+            facts=[(got in ([('return', want_n[0][1][1])], [('return', want_n2[0][1][1])]),
+                    'the cell count is |end - origin|_1 without the + 1: the walk from the origin cell to the end cell visits |d|_1 + 1 cells, so the end cell is never reported'),
+                   (len(got) == 1 and got[0][0] == 'return' and isinstance(got[0][1], tuple) and got[0][1][0] == '+' and got[0][1][1] in (want_n[0][1][1], want_n2[0][1][1]) and isinstance(got[0][1][2], int) and got[0][1][2] != 1,
+                    'the cell count is |end - origin|_1 + %s, the walk visits |d|_1 + 1 cells' % (got[0][1][2] if len(got) == 1 and isinstance(got[0][1], tuple) and len(got[0][1]) == 3 else '?'))])
     s0 = stmts_sx(c0)
     vecname = next((s[1] for s in s0 if s[0] == 'decl' and isinstance(s[2], tuple) and str(s[2][0]).startswith('new:std::vector<')), None)
     want0 = [('decl', 'rayNumberOfCells', ('.computeRayNumberOfCells', 'this')),
@@ -251,7 +255,7 @@ def check_set_end_point(fx, R, cq, cname, dim, f):
     cond = strip_casts(L['c'])
     full = v is not None and const_value(v.get('init')) == 0 and cond.get('k') == 'Bin' and cond['op'] == '<' and const_value(cond['r']) == dim \
         and strip_casts(cond['l']).get('id') == v['id'] and deep_unwrap(sx(L['inc'])) in (('u++', v['name']),)
-    R.check(full, 'Y4', cname + '::setEndPoint:axes', 'the initialisation loop does not run over all %d axes: %s; %s' % (dim, pp(L['c']), pp(L['inc'])), 'loop over all axes', fx.rel(L['loc']), 'E-STATE')
+    R.form(full, 'Y4', cname + '::setEndPoint:axes', 'the initialisation loop does not run over all %d axes: %s; %s' % (dim, pp(L['c']), pp(L['inc'])), 'loop over all axes', fx.rel(L['loc']), 'E-STATE')
     iv = v['name'] if v else 'i'
     rd = sym.Reader(fx, call_hook=vec.hook)
     st0 = sym.State()
